@@ -46,6 +46,30 @@ PROPS = {
         assumptions=['template strings whose meaning the statement does not fix (sigil runs longer than 3, digit-first / underscore-first names) carry no verdict',
                      'An+B strings outside the strict CSS grammar carry no verdict'],
     ),
+    'C02': dict(
+        engines=[('vmon', 'c02')],
+        technique='runtime monitoring: generated patterns cut from real code, premise checked structurally, match outcome and bindings asserted at all five strictness levels',
+        rule=('pattern cutter over every corpus file (23 languages): an error-free named node is turned into a pattern by replacing 0-4 non-overlapping named descendants with '
+              '$V0.. or a trailing run of named children with $$$V. The premise "same tree shape" is CHECKED by structural alignment of the public PatternNode tree with the node '
+              '(same kinds, same child counts, equal terminal text, holes exactly over the abstracted byte ranges); cases failing it are counted as skipped_premise and never judged. '
+              'evaluations = cuts generated; each premise-holding cut is matched at cst/smart/ast/relaxed/signature and every binding range compared. '
+              'Non-trivial = distinct (file, node, pattern) whose premise held and which have >= 1 hole or an ellipsis or a node with >= 3 children.'),
+        floor={'quick': 20000, 'thorough': 300000},
+        level_text='Tens of thousands (quick) to ~0.6 M (thorough) cut patterns per run, each checked at five strictness levels; held on the cuts executed.',
+        level_note='Trusted: the structural premise check (refsem/align.rs::shape) and children() enumeration. Holes only on named descendants; nodes containing ERROR/MISSING are excluded (statement).',
+    ),
+    'C03': dict(
+        engines=[('vmon', 'c03')],
+        technique='runtime monitoring: implementation matches checked against an independent, most-permissive alignment relation (dynamic program) on near-miss candidates',
+        rule=('patterns cut from every corpus file (holes, ellipses, self patterns) are tried at all five strictness levels on every node of the same kind in the whole language corpus '
+              'and in mutated copies (capped per pattern) plus random nodes; whenever Pattern::match_node reports a match the independent relation legal(pattern, node, strictness) must hold, '
+              'and get_match_len must be 0 < len <= |node| ending on a descendant boundary. evaluations = (pattern, node, level) triples. '
+              'Non-trivial = distinct (pattern, candidate) pairs where the implementation matched a node whose text differs from the pattern, or matched at some levels only (near miss).'),
+        floor={'quick': 500000, 'thorough': 10000000},
+        level_text='Millions of (pattern, node, strictness) triples with frequent near misses; implementation subset-of relation checked on each reported match.',
+        level_note=('Trusted: refsem/align.rs::legal, written from the property statement as the most permissive reading (pattern ERROR = wildcard kind, childless pattern node constrains only the kind, '
+                    'repeated-variable consistency ignored here). It cannot see matches that are legal but undesirable.'),
+    ),
 }
 
 NOT_APPLICABLE = {}
